@@ -7,12 +7,20 @@ import UcantoModel.Props.C04
 import UcantoModel.Props.C05
 import UcantoModel.Props.C06
 import UcantoModel.Props.Termination
+import UcantoModel.Props.C07
 import UcantoModel.Props.C08
 import UcantoModel.Props.C09
+import UcantoModel.Props.C10
 import UcantoModel.Props.C11
 import UcantoModel.Props.C12
+import UcantoModel.Props.C12Roundtrip
+import UcantoModel.Props.C13
 import UcantoModel.Props.C14
 import UcantoModel.Props.C16
 import UcantoModel.Props.C17
 import UcantoModel.Props.C17Facts
+import UcantoModel.Props.C18
+import UcantoModel.Props.C19
 import UcantoModel.Props.C20
+import UcantoModel.Props.Examples
+import UcantoModel.Props.OracleSound
